@@ -231,8 +231,11 @@ func (c *Codec) update(keys channel.Keys, keyDataTypes map[channel.Key]telem.Dat
 		}
 	}
 	slices.Sort(s.keys)
-	c.mu.updateAvailable.Store(true)
+	// Publish the state before raising the flag: processUpdates clears the flag and then
+	// drains the channel, so a flag raised first can be consumed while the channel is
+	// still empty, which strands the state until the next update.
 	c.mu.updates <- s
+	c.mu.updateAvailable.Store(true)
 }
 
 func (c *Codec) processUpdates() {
